@@ -27,6 +27,10 @@ class OpResult {
   OpResult(const OpResult<T>& oth) : ptr_(oth ? new (buf_) T(*oth.ptr_) : nullptr) {}
 
   OpResult(OpResult<T>&& oth) : ptr_(oth ? new (buf_) T(std::move(*oth.ptr_)) : nullptr) {
+    // The moved-from object is still alive: destroy it before disengaging the source.
+    if (oth.ptr_) {
+      oth.ptr_->~T();
+    }
     oth.ptr_ = nullptr;
   }
 
@@ -56,6 +60,8 @@ class OpResult {
 
     if (oth) {
       ptr_ = new (buf_) T(std::move(*oth.ptr_));
+      // The moved-from object is still alive: destroy it before disengaging the source.
+      oth.ptr_->~T();
       oth.ptr_ = nullptr;
     } else {
       ptr_ = nullptr;
